@@ -2,7 +2,7 @@
 From Coq Require Import List ZArith Bool Lia.
 From BLB Require Import Gen.Consts.
 From BLB Require Cluster.Model.
-From BLB Require Import C14.Model C14.Witness C14.Proofs C14.Run C14.Late C14.InvFrame C14.InvStore C14.InvVer C14.InvPool C14.InvRound C14.InvTract C14.InvFence C14.InvContent C14.InvPiece C14.TriFull.
+From BLB Require Import C14.Model C14.Witness C14.Proofs C14.Run C14.Late C14.InvFrame C14.InvStore C14.InvVer C14.InvPool C14.InvRound C14.InvTract C14.InvFence C14.InvContent C14.InvPiece C14.TriFull C14.ContentList C14.ContentInv C14.ContentFull C14.ContentWitness.
 Import ListNotations.
 Open Scope Z_scope.
 
@@ -225,3 +225,54 @@ Example racing_write_example :
                     (s_acked (run_state_fx all_fix init_state w_f14)))
           (s_commits (run_state_fx all_fix init_state w_f14))) = 6%nat.
 Proof. vm_compute. repeat split; reflexivity. Qed.
+
+(* [FULL] move_preserves_content for the repaired model, run level: for every schedule of setup events followed by run-phase events with one round per curator incarnation at a time (gens_run), at most one client write per tract in flight (single_run: a write on a tract starts only when no client operation on that tract is unfinished and no Write call to it is outstanding) and write ids distinct per tract (wids_run), every applied commit recorded a packed copy that shows, byte by byte, the newest write attempt started before the commit if that attempt was acknowledged, and zero where no attempt ever wrote. No assumption on message order, losses, duplicates, restarts or leader changes *)
+Theorem move_preserves_content :
+  forall fx setup evs, fx6 fx = true -> fx13 fx = true -> fx14 fx = true ->
+    forallb ev_setup2 setup = true -> forallb ev_run evs = true ->
+    gens_run fx (run_state_fx fx init_state setup) evs = true ->
+    single_run fx (run_state_fx fx init_state setup) evs = true ->
+    wids_run fx init_state (setup ++ evs) = true ->
+    content_ok (run_state_fx fx init_state (setup ++ evs)) = true.
+Proof. exact content_ok_reachable. Qed.
+Print Assumptions move_preserves_content.
+
+(* [FULL] the ordering invariant behind it, same schedules: in every reachable state the applied write list of every replica embeds in order (repetitions allowed) into the list of write attempts of its tract, and the packed copy of every applied commit embeds in order into the attempts started before that commit, whose ids are distinct *)
+Theorem applied_order_agrees_with_start_order :
+  forall fx setup evs, fx6 fx = true -> fx13 fx = true -> fx14 fx = true ->
+    forallb ev_setup2 setup = true -> forallb ev_run evs = true ->
+    gens_run fx (run_state_fx fx init_state setup) evs = true ->
+    single_run fx (run_state_fx fx init_state setup) evs = true ->
+    wids_run fx init_state (setup ++ evs) = true ->
+    forall st, st = run_state_fx fx init_state (setup ++ evs) ->
+    (forall h tk rep, Cluster.Model.rget (s_reps st) (h, tk) = Some rep -> sub_rep (Cluster.Model.r_app rep) (att_of st tk)) /\
+    (forall tk term packed nv sv started, In (tk, term, packed, nv, sv, started) (s_commits st) ->
+       sub_rep packed started /\ NoDup (map Cluster.Model.w_id started)).
+Proof. exact applied_order_reachable. Qed.
+Print Assumptions applied_order_agrees_with_start_order.
+
+(* [REFUTED] move_preserves_content on the repaired model without the single-writer discipline: two clients write the same range of one tract at the same time, the later one reaches the replicas first, both are acknowledged, the move commits; every other hypothesis of the theorem holds, the packed copy shows the older write *)
+Theorem move_preserves_content_refuted_for_concurrent_writers :
+  exists setup evs, forallb ev_setup2 setup = true /\ forallb ev_run evs = true /\
+    gens_run all_fix (run_state_fx all_fix init_state setup) evs = true /\
+    wids_run all_fix init_state (setup ++ evs) = true /\
+    single_run all_fix (run_state_fx all_fix init_state setup) evs = false /\
+    content_ok (run_state_fx all_fix init_state (setup ++ evs)) = false.
+Proof. exists (firstn 26 w_two_writers), (skipn 26 w_two_writers). vm_compute. repeat split; reflexivity. Qed.
+Print Assumptions move_preserves_content_refuted_for_concurrent_writers.
+
+(* [REFUTED] move_preserves_content on the repaired model without distinct write ids: a client write reuses the id of an acknowledged write of the same tract and fails; it is the newest attempt on its bytes and counts as acknowledged by its id, the packed copy rightly does not contain it; every other hypothesis of the theorem holds *)
+Theorem move_preserves_content_refuted_for_reused_write_id :
+  exists setup evs, forallb ev_setup2 setup = true /\ forallb ev_run evs = true /\
+    gens_run all_fix (run_state_fx all_fix init_state setup) evs = true /\
+    single_run all_fix (run_state_fx all_fix init_state setup) evs = true /\
+    wids_run all_fix init_state (setup ++ evs) = false /\
+    content_ok (run_state_fx all_fix init_state (setup ++ evs)) = false.
+Proof. exists (firstn 26 w_reused_id), (skipn 26 w_reused_id). vm_compute. repeat split; reflexivity. Qed.
+Print Assumptions move_preserves_content_refuted_for_reused_write_id.
+
+(* non-vacuity: schedule f14 meets every hypothesis of move_preserves_content, ends with 6 applied commits, and 36 of the byte positions content_ok checks have an acknowledged write as newest covering attempt *)
+Example move_preserves_content_example :
+  hyps w_f14 26 = (true, true, true, true, true) /\ content_ok (run_state_fx all_fix init_state w_f14) = true /\
+  length (s_commits (run_state_fx all_fix init_state w_f14)) = 6%nat /\ content_checks (run_state_fx all_fix init_state w_f14) = 36%nat.
+Proof. exact f14_content_example. Qed.
